@@ -520,8 +520,13 @@ func (f *FrameV1) SetAppendixData(appendix []byte) error {
 		return errors.New("appendix data too big")
 
 	case len(appendix) > len(f.data)-f.appendixIndex:
+		// Move frame to a bigger pooled slice to make space for the appendix.
 		f.data = f.data[:origDataSize]
-		return errors.New("not enough space for appendix")
+		if err := f.growPooledSlice(f.appendixIndex + len(appendix)); err != nil {
+			return err
+		}
+		f.data = f.data[:cap(f.data)]
+		fallthrough
 
 	default:
 		// Write new appendix.
@@ -533,6 +538,34 @@ func (f *FrameV1) SetAppendixData(appendix []byte) error {
 
 		return nil
 	}
+}
+
+// growPooledSlice moves the frame to a bigger pooled slice that can hold the
+// given frame data size, including the required margins.
+func (f *FrameV1) growPooledSlice(newDataSize int) error {
+	if f.builder == nil {
+		return errors.New("frame has no builder")
+	}
+
+	// Get new pooled slice.
+	_, overhead := f.builder.FrameMargins()
+	ps := f.builder.GetPooledSlice(f.psDataOffset + newDataSize + overhead)
+	if len(ps) < f.psDataOffset+newDataSize {
+		if ps != nil {
+			f.builder.ReturnPooledSlice(ps)
+		}
+		return errors.New("not enough space for appendix")
+	}
+
+	// Copy frame (including offset) and switch to new pooled slice.
+	dataSize := len(f.data)
+	copy(ps, f.pooledSlice[:f.psDataOffset+dataSize])
+	if f.pooledSlice != nil {
+		f.builder.ReturnPooledSlice(f.pooledSlice)
+	}
+	f.pooledSlice = ps
+	f.data = ps[f.psDataOffset : f.psDataOffset+dataSize]
+	return nil
 }
 
 // FrameDataWithMargins returns the whole frame, including the given offset and overhead.
